@@ -63,8 +63,23 @@ func nonNegEdge(b *ssa.BasicBlock, succ int, leaf ssa.Value) bool {
 	}
 	holds := onTrue != neg // the comparison holds on this edge
 	k, isConst := bo.Y.(*ssa.Const)
-	if !isConst || bo.X != leaf || k.Value == nil {
+	if !isConst || k.Value == nil {
 		return false
+	}
+	if bo.X != leaf {
+		phi, isPhi := bo.X.(*ssa.Phi)
+		if !isPhi {
+			return false
+		}
+		has := false
+		for _, e := range phi.Edges {
+			if e == leaf {
+				has = true
+			}
+		}
+		if !has {
+			return false
+		}
 	}
 	c := k.Int64()
 	switch bo.Op {
@@ -101,6 +116,21 @@ func ruleGuardedIndexing(c *Ctx, rule string) {
 	for _, k := range servingScope {
 		inServing[k] = true
 	}
+	// helpers extracted from the serving-path functions (same package, reached by static calls) belong to the scope
+	{
+		g := an.NewGraph(c.P)
+		var roots []*ssa.Function
+		for _, k := range servingScope {
+			if fn := c.P.Func(k); fn != nil {
+				roots = append(roots, fn)
+			}
+		}
+		for fn := range g.Reach(roots, func(_ *ssa.Function, e an.Edge) bool { return e.Kind == "static" }) {
+			if strings.HasPrefix(an.FuncKey(fn), "mux.") || strings.HasPrefix(an.FuncKey(fn), "syntax.(*Segment).") {
+				inServing[an.FuncKey(fn)] = true
+			}
+		}
+	}
 	outOfScope := 0
 	for _, f := range c.libFuncs() {
 		fk := c.fk(f)
@@ -120,15 +150,20 @@ func ruleGuardedIndexing(c *Ctx, rule string) {
 					if call, ok := bound.(*ssa.Call); ok && bi == 0 {
 						if _, isLen := builtinCall(call, "len"); isLen && an.AP(call.Call.Args[0]) != an.AP(x.X) {
 							p := an.AP(call.Call.Args[0])
-							dom := an.DominatedByEdge(in, func(b *ssa.BasicBlock, succ int) bool {
+							dom := an.DominatedByEdgeDeep(c.rootsOf(f, 2), in, func(b *ssa.BasicBlock, succ int) bool {
 								cond, onTrue := an.EdgeCond(b, succ)
 								v, neg := stripNot(cond)
 								hc, ok := v.(*ssa.Call)
 								if !ok || an.CalleeName(&hc.Call) != "strings.HasPrefix" {
 									return false
 								}
-								return onTrue != neg && an.AP(hc.Call.Args[0]) == an.AP(x.X) && an.AP(hc.Call.Args[1]) == p
-							})
+								if onTrue == neg || an.AP(hc.Call.Args[0]) != an.AP(x.X) {
+									return false
+								}
+								q := an.AP(hc.Call.Args[1])
+								// the tested prefix is p itself, or p is a leading slice of it (HasPrefix(s, q) implies HasPrefix(s, q[:k]))
+								return q == p || p == "slice("+q+")" && isLeadingSlice(call.Call.Args[0])
+							}, deepDefault)
 							c.R.Add(rule, fk, fmt.Sprintf("slice:%s[len(%s):]/requires:HasPrefix", an.AP(x.X), p), c.pos(in), dom, ifelse(dom, "dominated by strings.HasPrefix on the same operands", "slicing past len("+p+") without a dominating HasPrefix("+an.AP(x.X)+", "+p+"): slice bounds out of range for a shorter string"))
 							continue
 						}
@@ -254,9 +289,9 @@ func ruleGuardedIndexing(c *Ctx, rule string) {
 				if lk, ok := idx.(*ssa.Lookup); ok {
 					if ib, isIdx := fieldLoadOf(lk.X, a.NodeT, a.FIndexes); isIdx {
 						if cb, isCh := fieldLoadOf(base, a.NodeT, a.FChildren); isCh && cb == ib {
-							dom := an.DominatedByEdge(in, func(b *ssa.BasicBlock, succ int) bool {
+							dom := an.DominatedByEdgeDeep(c.rootsOf(f, 2), in, func(b *ssa.BasicBlock, succ int) bool {
 								return lenPositiveEdge(b, succ, ib+"."+a.FIndexes)
-							})
+							}, deepDefault)
 							c.R.Add(rule, fk, fmt.Sprintf("index:%s.%s[%s.%s[..]]/requires:index-non-empty", cb, a.FChildren, ib, a.FIndexes), c.pos(in), dom, ifelse(dom, "dominated by len(indexes) > 0 (coherence of the index itself: R2)", "children indexed through the first-byte map without checking that the map is in use: an absent byte yields position 0"))
 							return
 						}
@@ -265,7 +300,7 @@ func ruleGuardedIndexing(c *Ctx, rule string) {
 				// (4) first element
 				if k, ok := idx.(*ssa.Const); ok && k.Value != nil && k.Int64() == 0 && inServing[fk] {
 					s := an.AP(base)
-					dom := an.DominatedByEdge(in, func(b *ssa.BasicBlock, succ int) bool { return nonEmptyEdge(b, succ, s) })
+					dom := an.DominatedByEdgeDeep(c.rootsOf(f, 2), in, func(b *ssa.BasicBlock, succ int) bool { return nonEmptyEdge(b, succ, s) }, deepDefault)
 					c.R.Add(rule, fk, fmt.Sprintf("index:%s[0]/requires:non-empty", s), c.pos(in), dom, ifelse(dom, "dominated by a non-emptiness test of "+s, "first element of "+s+" read without a non-emptiness test: index out of range on empty input"))
 					return
 				}
@@ -346,4 +381,10 @@ func nonEmptyEdge(b *ssa.BasicBlock, succ int, ap string) bool {
 		}
 	}
 	return false
+}
+
+// isLeadingSlice: v is q[:k] (no low bound).
+func isLeadingSlice(v ssa.Value) bool {
+	sl, ok := v.(*ssa.Slice)
+	return ok && sl.Low == nil
 }
